@@ -12,6 +12,9 @@ import _execlib
 
 def run(ctx):
     _execlib.run_exec(ctx, "C25")
+    # real operators with an in-place path (Slice with mixed steps, Clip with omitted bounds, broadcast
+    # binary operators, layout operators, ...) under owned/borrowed inputs, extra requested outputs, pools
+    _execlib.run_realops(ctx, "C25")
     # a run must not affect later runs: sequential histories of requests on one loaded model (TLC-generated
     # class histories incl. "the previous request plus a value for an intermediate node"); every result must
     # equal the result of the same call made alone on a fresh model and the naive evaluation in TLA+
